@@ -26,9 +26,9 @@ if [ $ok = 1 ]; then
   cp $diff /verif/seeded/$id/patch.diff
   cp $demo /verif/seeded/$id/demo.rs
   python3 - "$id" "$PROP" "$crate" "$suite" "$with" "$without" "$notes" <<'PY'
-import json,sys
+import json,sys,os
 id,P,crate,suite,w,wo,notes=sys.argv[1:8]
-json.dump({'id':id,'breaks_property':P,'origin':'independent sub-agent given only the property record and a scratch worktree (round 3: builder / writer side)',
+json.dump({'id':id,'breaks_property':P,'origin':os.environ.get('ORIGIN','independent sub-agent given only the property record and a scratch worktree'),
  'demo':{'file':'demo.rs','crate':crate,'how':f'copy to {crate}/tests/demo_x.rs and run cargo test --offline -p {crate} --test demo_x'},
  'confirmed_by_me':{'existing_suite_with_change':suite,'demo_with_change':w,'demo_without_change':wo,'where':'scratch worktree of /repo HEAD under /var/tmp (removed afterwards)'},
  'needs_to_manifest_and_clause': open(notes).read()[:6000]}, open(f'/verif/seeded/{id}/meta.json','w'), indent=1)
